@@ -36,6 +36,7 @@ type c08Case struct {
 	FailAt  string      `json:"fail_at,omitempty"` // "dist" | "seq"
 	FailIdx int         `json:"fail_idx,omitempty"`
 	Bound   int         `json:"bound,omitempty"`
+	FnPts   bool        `json:"fn_points,omitempty"` // function entries are scheduling points too
 	Choices []vrt.Point `json:"choices,omitempty"`
 }
 
@@ -501,7 +502,7 @@ func c08Sched(c *mc.Ctx, cs c08Case, single bool) {
 	}
 	ex := &mc.Explorer{
 		Ctx:   c,
-		Opts:  vrt.Options{Sched: true, MaxSteps: 20000},
+		Opts:  vrt.Options{Sched: true, MaxSteps: 200000, FnPoints: cs.FnPts},
 		Bound: map[string]int{"sched": cs.Bound},
 		Body:  func() any { return run(cs.Cpus) },
 	}
@@ -640,6 +641,18 @@ func c08Tasks(tier string) []mc.Task {
 		}
 		ts = append(ts, mc.Task{Name: fmt.Sprintf("sched#maxfill/cpus%d", cpus), Run: func(c *mc.Ctx) { c08Sched(c, cs, false) }})
 	}
+	// interleavings inside the workers: every function entry (>= 4 statements) of goalign is a scheduling
+	// point as well, one preemption: state shared through the heap or through package-level variables
+	// (a hoisted scratch buffer, a cache) shows by its effect on the matrix
+	for _, model := range []string{"pdist", "k2p", "f81", "tn93", "rawdist"} {
+		cs := c08Case{Kind: "sched", Seqs: []string{"ACGTAC", "CCGTAA", "CAGT-C"}, Model: model, Cpus: 2, Bound: 1, FnPts: true}
+		ts = append(ts, mc.Task{Name: fmt.Sprintf("sched#fnpoints/%s/cpus2", model), Run: func(c *mc.Ctx) { c08Sched(c, cs, false) }})
+		if thorough {
+			cs3 := cs
+			cs3.Cpus = 3
+			ts = append(ts, mc.Task{Name: fmt.Sprintf("sched#fnpoints/%s/cpus3", model), Run: func(c *mc.Ctx) { c08Sched(c, cs3, false) }})
+		}
+	}
 	// full-buffer path: 15 sequences = 105 pairs > channel capacity 100
 	{
 		var seqs []string
@@ -765,6 +778,7 @@ func init() {
 		ID:    "C08",
 		Level: "model_checking",
 		Rule: "schedule part: stateless DFS over all interleavings of the real dna.DistMatrix goroutines (main, producer, cpus workers; scheduling points at every go/channel/mutex/WaitGroup operation) with iterative preemption bounds 0,1,2 (quick) / 0..3 (thorough), for 3 sequences x cpus 1..3 x {k2p (with a +Inf pair), jc}, 4 sequences with overlapping ranges, 15 sequences (105 pairs > channel capacity); " +
+			"function-entry part: 3 sequences, cpus 2 (3 thorough), 5 models, every function entry of goalign (functions of >= 4 statements) an additional scheduling point, preemption bound 1; "+
 			"fault part: the same exploration with a DistModel that fails at each Distance call / each Sequence call in turn, and with one that fails at every Distance call from the k-th on (k=0,1; cpus 2,3; preemption bound 2/3); relational part: all alignments of shape 2x1,2x2,3x1,2x3,3x2 (+2x4,3x3 thorough) over {A,C,G,T,-} x 7 models x rm-gaps x gap-count modes under every column permutation, replication (concat, weights) k=2,3, unit weights, reverse complement, every row permutation, cpus 1,2,3. " +
 			"distinct_nontrivial counts distinct (case, schedule) executions of the schedule/fault parts plus relational cases whose matrix has a non-zero entry. states/transitions are nodes/edges of the schedule choice trees.",
 		Assumptions: []string{
